@@ -1,7 +1,233 @@
 import Driver.Util
+import Model.Witness
+import Model.Sha256
+/-! Driver for engine `witness` (C14): trace acceptor for `Witness.addCheckpoint` plus a function-mode
+diff of `Merkle.checkTree` against `tlog.CheckTree`. The line protocol is documented at the top of
+`harness/internal/eng/witness.go`.
+
+Acceptor: on a `req` line the model runs the whole request (`addCheckpoint` with the injected store
+outcomes of the line) on the state of the origin the note is addressed to; the store operations it
+performs (the new suffix of `OState.log`) and its response are remembered under the request id and
+must then be matched, in order, by the `ef` and `resp` lines of that request. Signed notes are
+compared as (text, per line: name, key hash, which registry key — if any — made it over that
+text), which is what the harness derives from the real bytes with the real verifiers. -/
 namespace Driver.Witness
-/-- stub: engine not implemented yet -/
+open _root_.Witness _root_.Checkpoint
+
+def sha (b : Bytes) : Bytes := Bytes.ofByteArray (Sha256.hash (Bytes.toByteArray b))
+
+/-- tlog.NodeHash -/
+def node (l r : Hash) : Hash := sha (1 :: (l ++ r))
+/-- the hash of the empty tree -/
+def emptyHash : Hash := sha []
+
+abbrev Desc := Bytes × Nat × Option Nat
+
+/-- which registry key made this line over `text` -/
+def who (ids : List Nat) (text : Bytes) (l : SigLine) : Option Nat := ids.find? fun k => l.sig == symSig k text
+
+def describe (ids : List Nat) (text : Bytes) (ls : List SigLine) : List Desc :=
+  ls.map fun l => (l.name, l.hash, who ids text l)
+
+def parseWho (s : String) : Option (Option Nat) :=
+  if s == "x" then some none else s.toNat?.map some
+
+def parseDesc (s : String) : Option Desc :=
+  match s.splitOn "." with
+  | [n, h, w] => do
+    let n ← Bytes.ofHex n
+    let h ← h.toNat?
+    let w ← parseWho w
+    pure (n, h, w)
+  | _ => none
+
+def parseDescs (s : String) : Option (List Desc) :=
+  if s == "-" then some [] else (s.splitOn ";").mapM parseDesc
+
+def lineOf (text : Bytes) (d : Desc) : SigLine :=
+  { name := d.1, hash := d.2.1, sig := match d.2.2 with | some k => symSig k text | none => [] }
+
+/-- "M:<first line>" | "W:<text>:<lines>" -/
+def parseNote (s : String) : Option NoteForm :=
+  match s.splitOn ":" with
+  | ["M", l] => (Bytes.ofHex l).map NoteForm.malformed
+  | ["W", t, ls] => do
+    let t ← Bytes.ofHex t
+    let ds ← parseDescs ls
+    pure (.wellformed { text := t, sigs := ds.map (lineOf t) })
+  | _ => none
+
+def parseOut : String → Option Out
+  | "ok" => some .ok | "errA" => some .errA | "errN" => some .errN | "dieA" => some .dieA | "dieN" => some .dieN
+  | _ => none
+
+def parseForm : String → Option BodyForm
+  | "ok" => some .ok | "noSeparator" => some .noSeparator | "noOldPrefix" => some .noOldPrefix
+  | "badOldNumber" => some .badOldNumber | "badProofHash" => some .badProofHash
+  | _ => none
+
+def parseHashes (s : String) : Option (List Hash) :=
+  if s == "-" then some [] else (s.splitOn ",").mapM Bytes.ofHex
+
+structure Pending where
+  rid : Nat
+  effects : List Effect
+  resp : Resp
+  text : Bytes          -- the re-encoded text the response lines are made over
+  origin : Bytes
+
+structure St where
+  t : Driver.Tally := {}
+  keys : List (Nat × Bytes × Nat) := []
+  k1 : Option VKey := none
+  k2 : Option VKey := none
+  mirror : Option VKey := none
+  logs : List LogCfg := []
+  states : List (Bytes × OState) := []
+  pending : List Pending := []
+  scenario : String := ""
+
+def St.bad (st : St) (n : Nat) (msg : String) : IO St := do
+  IO.println s!"MISMATCH {n} [{st.scenario}] {msg}"
+  return { st with t := { st.t with mismatches := st.t.mismatches + 1 } }
+
+def St.good (st : St) (branch : String) : St :=
+  { st with t := { st.t.bump branch with ok := st.t.ok + 1 } }
+
+def St.vkey (st : St) (id : Nat) : Option VKey :=
+  (st.keys.find? (·.1 == id)).map fun (i, n, h) => { name := n, hash := h, key := i }
+
+def St.ids (st : St) : List Nat := st.keys.map (·.1)
+
+def St.cfg (st : St) : Option Cfg := do
+  let k1 ← st.k1
+  let k2 ← st.k2
+  pure { k1 := k1, k2 := k2, mirror := st.mirror, logs := st.logs }
+
+def St.stateOf (st : St) (o : Bytes) : OState :=
+  match st.states.find? (·.1 == o) with
+  | some (_, s) => s
+  | none => OState.init emptyHash
+
+def St.setState (st : St) (o : Bytes) (s : OState) : St :=
+  { st with states := (o, s) :: st.states.filter (·.1 != o) }
+
+def respClass : Resp → String
+  | .err c _ => s!"{c.status}-{reprStr c}"
+  | .ok _ => "200"
+  | .dead => "dead"
+
+def showDescs (ds : List Desc) : String :=
+  if ds.isEmpty then "-" else
+  ";".intercalate (ds.map fun (n, h, w) => s!"{Bytes.toHexP n}.{h}.{match w with | some k => toString k | none => "x"}")
+
+def onLine (st : St) (n : Nat) (l : String) : IO St := do
+  let st := { st with t := { st.t with lines := st.t.lines + 1 } }
+  match Driver.words l with
+  | ["scenario", name] =>
+    if !st.pending.isEmpty then
+      let st' ← st.bad n s!"{st.pending.length} request(s) of the previous scenario never completed in the trace"
+      return { st' with keys := [], k1 := none, k2 := none, mirror := none, logs := [], states := [], pending := [], scenario := name }
+    return { (st.good "scenario") with keys := [], k1 := none, k2 := none, mirror := none, logs := [], states := [], pending := [], scenario := name }
+  | ["key", id, name, hash] =>
+    match id.toNat?, Bytes.ofHex name, hash.toNat? with
+    | some i, some nm, some h => return { st with keys := st.keys ++ [(i, nm, h)] }
+    | _, _, _ => st.bad n s!"bad-line: {l}"
+  | ["cfg", a, b, m] =>
+    match a.toNat?.bind st.vkey, b.toNat?.bind st.vkey with
+    | some k1, some k2 =>
+      let mir := if m == "-" then none else m.toNat?.bind st.vkey
+      return { st with k1 := some k1, k2 := some k2, mirror := mir }
+    | _, _ => st.bad n s!"bad-line: {l}"
+  | ["log", origin, ids] =>
+    match Bytes.ofHex origin, (if ids == "-" then some [] else (ids.splitOn ",").mapM fun s => s.toNat?.bind st.vkey) with
+    | some o, some ks => return { st with logs := st.logs ++ [({ origin := o, verifiers := ks } : LogCfg)] }
+    | _, _ => st.bad n s!"bad-line: {l}"
+  | ["start", _] => return st.good "start"
+  | ["req", rid, inst, form, old, proof, note, f, r, u] =>
+    match rid.toNat?, inst.toNat?, parseForm form, old.toNat?, parseHashes proof, parseNote note,
+          parseOut f, parseOut r, parseOut u, st.cfg with
+    | some rid, some inst, some form, some old, some proof, some note, some f, some r, some u, some cfg =>
+      let req : AddReq := { body := form, old := old, proof := proof, note := note }
+      let e : Env := { cfg := cfg, inst := inst, req := req, fetchOut := f, replaceOut := r, uploadOut := u }
+      let o := e.origin
+      let s := st.stateOf o
+      let (s', resp) := addCheckpoint node emptyHash e s
+      let effects := s'.log.drop s.log.length
+      let text := match e.reCkpt with | some c => formatCheckpoint c | none => []
+      let st := st.setState o s'
+      let pd : Pending := { rid := rid, effects := effects, resp := resp, text := text, origin := o }
+      let st := { st with pending := st.pending ++ [pd] }
+      return st.good s!"req:{respClass resp}:ops{effects.length}"
+    | _, _, _, _, _, _, _, _, _, _ => st.bad n s!"unparsable request: {l.take 200}"
+  | "ef" :: rid :: kind :: origin :: rest =>
+    match rid.toNat?, Bytes.ofHex origin with
+    | some rid, some o =>
+      match st.pending.find? (·.rid == rid) with
+      | none => st.bad n s!"store operation of a request the model knows nothing about: {l.take 160}"
+      | some p =>
+        let upd (p' : Pending) : St := { st with pending := st.pending.map fun q => if q.rid == rid then p' else q }
+        if o != p.origin then st.bad n s!"request {rid}: {kind} touches origin {origin}, the request is for {Bytes.toHexP p.origin}"
+        else
+        match p.effects, kind, rest with
+        | .lockFetch _ _ :: more, "fetch", [] => return (upd { p with effects := more }).good "ef:fetch"
+        | .lockReplace _ new applied _ :: more, "replace", [a, noteS] =>
+          match parseNote noteS with
+          | some (.wellformed nt) =>
+            if (a == "1") != applied then st.bad n s!"request {rid}: lock write applied={a}, model says {applied}"
+            else if nt.text != new.text || describe st.ids nt.text nt.sigs != describe st.ids new.text new.sigs then
+              st.bad n s!"request {rid}: the note written to the lock store differs: impl text={Bytes.toHexP nt.text} lines={showDescs (describe st.ids nt.text nt.sigs)} model text={Bytes.toHexP new.text} lines={showDescs (describe st.ids new.text new.sigs)}"
+            else return (upd { p with effects := more }).good s!"ef:replace:{a}"
+          | _ => st.bad n s!"request {rid}: a malformed note was written to the lock store"
+        | .upload _ obj applied _ :: more, "upload", [a, noteS] =>
+          match parseNote noteS with
+          | some (.wellformed nt) =>
+            if (a == "1") != applied then st.bad n s!"request {rid}: upload applied={a}, model says {applied}"
+            else if nt.text != obj.text || describe st.ids nt.text nt.sigs != describe st.ids obj.text obj.sigs then
+              st.bad n s!"request {rid}: the published note differs from the model's"
+            else return (upd { p with effects := more }).good s!"ef:upload:{a}"
+          | _ => st.bad n s!"request {rid}: a malformed note was published"
+        | exp :: _, _, _ =>
+          st.bad n s!"request {rid}: store operation `{kind}` is not the next one the protocol allows (model expects {reprStr exp |>.take 60})"
+        | [], _, _ => st.bad n s!"request {rid}: store operation `{kind}` after the model's request has no more operations"
+    | _, _ => st.bad n s!"bad-line: {l.take 160}"
+  | ["resp", rid, status, payload] =>
+    match rid.toNat? with
+    | none => st.bad n s!"bad-line: {l.take 160}"
+    | some rid =>
+      match st.pending.find? (·.rid == rid) with
+      | none => st.bad n s!"response to a request the model knows nothing about: {l.take 160}"
+      | some p =>
+        let st := { st with pending := st.pending.filter (·.rid != rid) }
+        if !p.effects.isEmpty then
+          st.bad n s!"request {rid}: answered {status} although the model still expects {p.effects.length} store operation(s)"
+        else
+        match p.resp with
+        | .dead => if status == "dead" then return st.good "resp:dead" else st.bad n s!"request {rid}: status {status}, model: process dies"
+        | .err c k =>
+          let want := toString c.status
+          let wantP := if c == .conflict then toString k else "-"
+          if status == want && payload == wantP then return st.good s!"resp:{want}-{reprStr c}"
+          else st.bad n s!"request {rid}: status {status} {payload}, model {want} {wantP} ({reprStr c})"
+        | .ok sigs =>
+          match parseDescs payload with
+          | some ds =>
+            if status == "200" && ds == describe st.ids p.text sigs then return st.good "resp:200"
+            else st.bad n s!"request {rid}: status {status} lines {payload}, model 200 {showDescs (describe st.ids p.text sigs)}"
+          | none => st.bad n s!"request {rid}: status {status} {payload}, model 200"
+  | ["ct", t, th, nn, h, proof, res] =>
+    match t.toNat?, Bytes.ofHex th, nn.toNat?, Bytes.ofHex h, parseHashes proof with
+    | some t, some th, some nn, some h, some proof =>
+      let m := Merkle.checkTree node proof.reverse t th nn h
+      if (res == "1") == m then return st.good s!"checkTree:{res}"
+      else st.bad n s!"CheckTree({t},{nn}) impl={res} model={m}"
+    | _, _, _, _, _ => st.bad n s!"bad-line: {l.take 160}"
+  | [] => return st
+  | _ => st.bad n s!"bad-line: {l.take 160}"
+
 def main : IO UInt32 := do
-  IO.println "MISMATCH 0 engine witness has no driver yet"
+  let st ← Driver.foldLines ({} : St) onLine
+  let st ← if st.pending.isEmpty then pure st else st.bad 0 s!"{st.pending.length} request(s) never completed in the trace"
+  IO.println st.t.summary
   return 0
 end Driver.Witness
